@@ -24,7 +24,7 @@ ASSUMPTIONS = ["reference extraction (tsim/refgram.py) written from the property
 
 
 def budget(tier):
-    return 2500 if tier == "quick" else 100000
+    return 2500 if tier == "quick" else 250000
 
 
 def gen_session(rng, tier, i):
